@@ -20,6 +20,8 @@ def main():
         subprocess.run(["git", "-C", "/repo", "worktree", "add", "-q", "--detach", target, "HEAD"], check=True)
         try:
             r = subprocess.run(["git", "-C", target, "apply", pth], capture_output=True, text=True)
+            if r.returncode != 0:   # written against an earlier HEAD of /repo: three-way
+                r = subprocess.run(["git", "-C", target, "apply", "-3", pth], capture_output=True, text=True)
             if r.returncode != 0:
                 print("%s %s: patch does not apply: %s" % (sset, name, r.stderr.strip()[:200])); out[name] = {"apply": "failed"}; continue
             env = dict(os.environ); env["WENCRY_REPO"] = target; env["VERIF_EVIDENCE_DIR"] = os.path.join(V, "out", "refactor-evidence"); env.setdefault("VERIF_WALL", "40")
